@@ -441,25 +441,29 @@ impl Space {
 }
 
 fn locate(block: usize) -> Option<(usize, String)> {
-    use std::io::{BufRead, BufReader};
     use std::process::{Command, Stdio};
     let exe = std::env::current_exe().ok()?;
     let args: Vec<String> = std::env::args().skip(1).collect();
     let mut c = Command::new(exe).args(&args).env("VERIF_SWEEP", format!("locate|{block}|{}|{block}|", usize::MAX / 2)).env("VERIF_DETAIL_BLOCK", block.to_string()).stdout(Stdio::piped()).stderr(Stdio::null()).spawn().ok()?;
-    let out = c.stdout.take()?;
     let mut last = None;
     let mut text = String::new();
-    for l in BufReader::new(out).lines().map_while(Result::ok) {
+    let mut done = false;
+    vcore::sweep::lines_until_silent(&mut c, std::time::Duration::from_secs(20), |l| {
         if let Some(k) = l.strip_prefix("K ") {
             last = k.trim().parse::<usize>().ok();
         } else if let Some(t) = l.strip_prefix("T ") {
             text = serde_json::from_str(t).unwrap_or_default();
         } else if l == "D" {
-            let _ = c.wait();
-            return None;
+            done = true;
+            return false;
         }
-    }
+        true
+    });
+    let _ = c.kill();
     let _ = c.wait();
+    if done {
+        return None;
+    }
     last.map(|k| (k, text))
 }
 
@@ -537,6 +541,12 @@ pub fn run(args: &Args) -> ! {
 
 pub fn replay(case: &J) -> ! {
     install_hook();
+    // a case recorded for a hang must not hang the replay
+    std::thread::spawn(|| {
+        std::thread::sleep(std::time::Duration::from_secs(60));
+        println!("FAIL no model and no error value within 60 s (hang)");
+        std::process::exit(1)
+    });
     let text = case["text"].as_str().unwrap_or("");
     let a = pipeline(text).map(|(s, m, f)| format!("stage {s}: {m} in {f}"));
     let b = pipeline(text).map(|(s, m, f)| format!("stage {s}: {m} in {f}"));
